@@ -62,17 +62,32 @@ def diff_kind(got, exp, var_et, it, rl, restart):
 
 
 class Catalogued:
-    """Which restarts the persistent iterations.txt can contain so far."""
+    """Which restarts the persistent iterations.txt can contain so far.
+
+    `seen`: certainly recorded (a call that completed covered them);
+    `maybe`: a call that hit an I/O error may or may not have recorded them
+    (cleared by the next call that completes)."""
 
     def __init__(self):
         self.seen = set()
+        self.maybe = set()
 
-    def call(self, present_restarts, skip_last):
+    def call(self, present_restarts, skip_last, failed=False):
         rs = sorted(present_restarts)
         if skip_last:
             rs = rs[:-1]
+        if failed:
+            self.maybe |= set(rs) - self.seen
+            return sorted(self.seen)
         self.seen |= set(rs)
+        self.maybe -= self.seen
         return sorted(self.seen)
+
+    def peek(self, present_restarts, skip_last):
+        rs = sorted(present_restarts)
+        if skip_last:
+            rs = rs[:-1]
+        return sorted(self.seen | set(rs))
 
 
 def expected_read(sim, cfg, vis, op):
